@@ -1303,3 +1303,76 @@ func ruleL6c(c *Ctx, pkgs map[string]bool) {
 		R.OK("L6c", "module/no-sent-closures", "-", "no function literal is sent over a channel")
 	}
 }
+
+// ---------------------------------------------------------------- U9  (Producer.Join's stage machine)
+
+func ruleU9(c *Ctx) {
+	R := c.R
+	p := c.P
+	R.Rule("U9", "in Producer.Join's stage switch a case that falls through into the next stage stores that stage first, and every case that returns a terminal error stores a terminal stage: the first producer is never consulted again once it reported io.EOF", 1)
+	f := p.FuncNamed("fun.Producer.Join")
+	if f == nil || len(f.Lits) == 0 {
+		R.Fail("U9", "fun.Producer.Join", "-", "not found")
+		return
+	}
+	lit := f.Lits[0]
+	info := lit.Info()
+	var sw *ast.SwitchStmt
+	walkNoLit(lit.Body, func(x ast.Node) bool {
+		if s, ok := x.(*ast.SwitchStmt); ok && s.Tag != nil && sw == nil {
+			if call, ok := ast.Unparen(s.Tag).(*ast.CallExpr); ok && selName(call) == "Load" {
+				sw = s
+			}
+		}
+		return true
+	})
+	if sw == nil {
+		R.Undecided("U9", "fun.Producer.Join/stages", p.Position(f.Pos()), "no `switch stage.Load()` in the joined producer: the state machine was restructured")
+		return
+	}
+	clauses := sw.Body.List
+	n := 0
+	for i, st := range clauses {
+		cc := st.(*ast.CaseClause)
+		if len(cc.Body) == 0 {
+			continue
+		}
+		if br, ok := cc.Body[len(cc.Body)-1].(*ast.BranchStmt); !ok || br.Tok != token.FALLTHROUGH || i+1 >= len(clauses) {
+			continue
+		}
+		next := clauses[i+1].(*ast.CaseClause)
+		if len(next.List) == 0 {
+			continue
+		}
+		n++
+		want := info.Uses[identOf(next.List[0])]
+		stored := false
+		for _, s := range cc.Body {
+			ast.Inspect(s, func(y ast.Node) bool {
+				if call, ok := y.(*ast.CallExpr); ok && selName(call) == "Store" && len(call.Args) == 1 {
+					if id := identOf(call.Args[0]); id != nil && info.Uses[id] == want && want != nil {
+						// it must not sit inside a nested loop/branch that the fall-through path can skip: top level of the case body
+						if es, ok := p.Parent(call).(*ast.ExprStmt); ok {
+							for _, top := range cc.Body {
+								if top == ast.Stmt(es) {
+									stored = true
+								}
+							}
+						}
+					}
+				}
+				return true
+			})
+		}
+		R.Check(stored, "U9", fmt.Sprintf("fun.Producer.Join/fallthrough(%s)", exprStr(next.List[0])), p.Position(cc.Pos()), "stores the next stage before falling through",
+			fmt.Sprintf("the case that falls through into %s does not store that stage: on the next call the joined producer runs the first part again after its io.EOF (a first part that yields again is placed after the second part's values; a counting first part is called once per output)", exprStr(next.List[0])))
+	}
+	if n == 0 {
+		R.Fail("U9", "fun.Producer.Join/stages", p.Position(f.Pos()), "no case of the stage switch falls through: the first→second hand-over is gone")
+	}
+}
+
+func identOf(e ast.Expr) *ast.Ident {
+	id, _ := ast.Unparen(e).(*ast.Ident)
+	return id
+}
